@@ -116,6 +116,11 @@ def corruptions(tlvs, idx):
     # declared length runs past the end of the attribute block (block length stays truthful)
     if idx == len(tlvs) - 1:
         yield 'overrun-block', rebuild(enc(idx, code, flags, val, length=len(val) + 7)), True
+        # by one and two octets, with the one-octet and with the two-octet (Extended Length) form of the length: what is
+        # actually there is then a well-formed value of the attribute
+        for extra in (1, 2):
+            yield f'overrun-block+{extra}', rebuild(enc(idx, code, flags, val, length=len(val) + extra)), True
+            yield f'overrun-block+{extra}-extended-length', rebuild(enc(idx, code, flags, val, length=len(val) + extra, ext=True)), True
     # declared length swallows the following attribute(s): block stays consistent, attribute is too long
     if idx < len(tlvs) - 1:
         nxt = w.encode_attr(tlvs[idx + 1][0], tlvs[idx + 1][2], flags=tlvs[idx + 1][1])
